@@ -499,7 +499,7 @@ Proof.
   assert (He1 : e <= 1) by (rewrite <- sqrt_1; apply sqrt_le_1_alt; exact H1).
   assert (He0 : 0 <= e) by apply sqrt_pos.
   assert (Er : sqrt (L / (2 * (n + d))) = e * r).
-  { unfold e, r. rewrite <- sqrt_mult; [|exact Hb|lra]. f_equal. field. lra. }
+  { unfold e, r. rewrite <- sqrt_mult; [|exact Hb|lra]. change (@sqrt RealA) with R_sqrt.sqrt. f_equal. field. lra. }
   assert (Ed : d / (n + d) = 1 - r * r).
   { unfold r. rewrite sqrt_sqrt by lra. lra. }
   rewrite Er, Ed.
@@ -576,7 +576,8 @@ Section Rise.
   Lemma inv1_inv2 : forall s, Inv1 n s -> Inv2 0 s.
   Proof.
     intros s (Hn & Hzn & Hzm & Hx). unfold Inv2. rewrite Hx, Nat.add_0_r.
-    repeat split; try assumption. rewrite Hzm. change (INR 0) with 0. unfold Rdiv. ring.
+    repeat split; try assumption. rewrite Hzm. change (INR 0) with 0. unfold Rdiv.
+    rewrite Rmult_0_l. reflexivity.
   Qed.
 
   Lemma az_inv2 : forall i s, Inv2 i s ->
@@ -643,12 +644,12 @@ Section Rise.
       replace (INR n + INR (S i) - INR n) with (INR (S i)) by ring.
       replace (((INR n + INR (S i)) * (INR (S i) / (INR n + INR (S i))) - INR n * 0) / INR (S i) - 0)
         with 1 by (field; lra).
-      apply Rle_trans with (sqrt 1); [|rewrite sqrt_1; lra].
+      apply Rle_trans with (R_sqrt.sqrt 1); [|rewrite sqrt_1; lra].
       apply sqrt_le_1_alt. exact Hb. }
     rewrite hddma_step_eq, X.
     replace (ha_min c <=? hn s + 1)%Z with true by (symmetry; apply Z.leb_le; lia).
     unfold a_drift, side_i, side_cases.
-    replace (m_n (hx s) =? m_n (az s 1))%Z with false
+    replace (m_n (hx s) =? m_n (az s 1%R))%Z with false
       by (symmetry; apply Z.eqb_neq; rewrite Hxn, Zn; lia).
     rewrite C. reflexivity.
   Qed.
